@@ -281,7 +281,8 @@ def _drive(world, scenario, run, res, hooks):
                     run.current_spec = s
                     try:
                         params = dict(s.get("params", {}))
-                        mf = world.start(f"N{x}", sim_id=s["sid"], spec=s, **params)
+                        # (cfg_entry: started from another simulator's sim config entry)
+                        mf = world.start(f"N{s.get('cfg_entry', x)}", sim_id=s["sid"], spec=s, **params)
                     except (Deadlock, Livelock, SyncHang):
                         raise
                     except SystemExit as e:
@@ -317,8 +318,13 @@ def _drive(world, scenario, run, res, hooks):
         pairs = [p[0] if (p[0] == p[1] and c.get("pair_str")) else tuple(p)
                  for p in c.get("pairs", [])]
         try:
-            world.connect(ents[c["src"]][c.get("se", 0)], ents[c["dst"]][c.get("de", 0)],
-                          *pairs, **kw)
+            src_e = ents[c["src"]][c.get("se", 0)]
+            dst_e = ents[c["dst"]][c.get("de", 0)]
+            if c.get("sc"):
+                src_e = src_e.children[0]
+            if c.get("dc"):
+                dst_e = dst_e.children[0]
+            world.connect(src_e, dst_e, *pairs, **kw)
             verdicts[i] = ("ok", None)
         except ScenarioError as e:
             verdicts[i] = ("ScenarioError", str(e)[:400])
